@@ -400,6 +400,15 @@ def check_exchange(S, rec, rng):
     respond_first = plan == "normal" and not reuse_headers and any(chunks) and rng.random() < (0.7 if expect else 0.25)
     if respond_first:
         rec.observe("applications_responding_before_reading")
+    # fault: the iterable the application returned fails in its close() - after it has produced its whole body
+    close_raises = plan == "normal" and not use_write and rng.random() < 0.12
+    # history inside one request: a second start_response() without exc_info (a mounted sub-application answering again)
+    # is refused; the application catches that and goes on with the answer it announced first
+    second_start = plan == "normal" and not respond_first and rng.random() < 0.12
+    if close_raises:
+        rec.observe("iterables_whose_close_raises")
+    if second_start:
+        rec.observe("refused_second_start_response_calls")
     shared_h = []
 
     FAIL_WITH = rng.choice([ZeroDivisionError, ZeroDivisionError, FileNotFoundError, OSError, PermissionError, KeyError])
@@ -530,10 +539,25 @@ def check_exchange(S, rec, rng):
             raise FAIL_WITH("application failed before the first body byte")
         else:
             w = start_response(status, h)
+        if second_start:
+            try:
+                start_response("404 NOT FOUND", [("Content-Type", "text/html"), ("Content-Length", "9"), ("X-App", "second")])
+                seen["second_start_accepted"] = True
+            except AssertionError:
+                pass
         if use_write:
             for c in chunks:
                 w(c)
             return []
+        if close_raises:
+            class Body:
+                def __iter__(self_):
+                    return iter(list(chunks))
+
+                def close(self_):
+                    raise RuntimeError("closing the body failed")
+
+            return Body()
         return list(chunks)
 
     rec.case()
@@ -541,7 +565,7 @@ def check_exchange(S, rec, rng):
     payload = b"".join(chunks)
     if use_chunked or payload:
         rec.nontrivial(hash((raw, status, with_cl, tuple(chunks), use_write, version, tuple(pattern))) & 0xFFFFFFFFFFFFFFFF)
-    case = {"part": "exchange", "request": raw, "read_pattern": pattern, "status": status, "with_content_length": with_cl, "chunks": chunks, "write_callable": use_write, "version": version, "respond_before_reading": respond_first}
+    case = {"part": "exchange", "request": raw, "read_pattern": pattern, "status": status, "with_content_length": with_cl, "chunks": chunks, "write_callable": use_write, "version": version, "respond_before_reading": respond_first, "close_raises": close_raises, "second_start_response": second_start}
     try:
         if reuse_headers:
             drive(S, raw, app, version)  # history: this is the application's second request, served like the first
